@@ -2,6 +2,7 @@ import TvCore.Props.WorldLinks
 import TvCore.Props.C08
 import TvCore.Props.C08Mixed
 import TvCore.Props.LinksWorld
+import TvCore.Props.LinksMatured
 #print axioms TV.C08.hold_establishes
 #print axioms TV.C08.process_noop
 #print axioms TV.C08.tick_held
@@ -41,3 +42,12 @@ import TvCore.Props.LinksWorld
 #print axioms TV.LinksWorld.other_links_unaffected
 #print axioms TV.LinksWorld.endsHold_exact
 #print axioms TV.LinksWorld.hold_then_nothing_delivered
+#print axioms TV.C08.perm_recall
+#print axioms TV.C08.ids_hold_off
+#print axioms TV.LinksMatured.hold_recalls
+#print axioms TV.LinksMatured.hold_keeps_ready_unrepaired
+#print axioms TV.LinksMatured.held_nothing_handed_fixed
+#print axioms TV.LinksMatured.release_delivers_recalled_first
+#print axioms TV.LinksMatured.witness_F_C08_1
+#print axioms TV.LinksMatured.fixed_F_C08_1
+#print axioms TV.LinksWorld.readyOK_hold
